@@ -363,6 +363,9 @@ impl<'a> Lexer<'a> {
                 return Ok(Token::StringTok);
             }
         }
+        // The loop above stops one byte short of the end. Consume that byte too so that the
+        // span of this error ends at the end of the text and not inside a multi-byte character.
+        self.bytes.next();
         Err("Unterminated multiline string. Add \"# after the end of your string.".to_string())
     }
 
